@@ -7,6 +7,8 @@ from pyvc.base import VC
 from pyvc.spec import lemma as _lemma
 
 LEVEL = "other"
+# obligations whose failure is a semantic fact about the tree (not a shape that is no longer recognized): reported as violations on their own
+DEFINITE = ("at_least_11_decimal_digits_are_kept", "first_cell_", "config_field_names_are_constructor_parameter_names", "row_loop_never_stops")
 FLOOR = 40
 REL = "src/rp2/ods_parser.py"
 CFG = "src/rp2/configuration.py"
